@@ -1,6 +1,7 @@
 """C01 / C04 / C07 / C11 share the all-format write campaign (vlib/writecamp.py) and the L1 correspondence."""
 from .. import writecamp as W, handlecheck as HC, geometry as G
-from ..core import Violation
+import os
+from ..core import Violation, VERIF
 
 CATS = {
     "C01": {"roundtrip", "crash"},
@@ -12,6 +13,14 @@ CATS = {
 
 def known_class(j, cat, text):
     f = j.fmt
+    if cat == "partition" and f.codec in (0x06, 0x07) and text.startswith("[only PEAK chunk bytes]"):
+        chunk = 2048 if f.codec == 0x06 else 1024
+        own = "f32" if f.codec == 0x06 else "f64"
+        longest = max([j.n] + list(getattr(j, "parts", []))) * j.ch
+        if j.ty != own and longest > chunk and chunk % j.ch != 0:
+            return "KF-C18-STAGING-MISALIGN"
+        if f.codec == 0x07 and j.ty in ("f64", "s32"):
+            return "KF-C18-DOUBLE-NARROW"
     if f.codec == 0x21:
         return "KF-VOX-ODD"
     if f.major == 0x04 and f.codec in (0x40, 0x41, 0x42):
@@ -28,8 +37,16 @@ def known_class(j, cat, text):
         return "KF-VOC-UPDATE"
     if f.major == 0x08 and f.codec in (0x10, 0x11) and j.ch == 1 and cat in ("frames", "eof"):
         return "KF-VOC-MONO-G711"
+    if f.major == 0x0E and j.sr < 10 and j.n == 0 and cat in ("reopen", "snapshot", "roundtrip"):
+        return "KF-PVF-TINY-FILE"
     if f.major == 0x0E and j.sr < 10 and cat in ("frames", "roundtrip", "eof", "snapshot"):
         return "KF-PVF-SHORT-HEADER"
+    if f.major == 0x02 and j.sr >= 2 ** 30 and cat == "rate":
+        return "KF-AIFF-RATE-2POW30"
+    if f.major in (0x06, 0x21) and j.sr >= 65536 and j.sr % 65536 == 0 and cat in ("reopen", "snapshot", "roundtrip", "frames", "eof"):
+        return "KF-RATE16-WRAP"
+    if f.major == 0x0A and j.sr >= 2 ** 31 - 64 and cat in ("reopen", "snapshot", "roundtrip", "frames", "eof"):
+        return "KF-C10-ircam-rate"
     if f.major == 0x02 and f.codec in (0x40, 0x41, 0x42) and cat == "snapshot":
         return "KF-DWVW-BUFFERED"
     if f.major == 0x05 and f.codec == 0x03 and 2048 % j.ch != 0 and cat in ("roundtrip", "partition", "snapshot"):
@@ -53,18 +70,14 @@ def run_common(ctx, prop, modules, stride, l1_scripts, l1_gen=None):
     ctx.run_regressions()
     if ctx.violations:
         found = True
+    still = {}
     for kf in ctx.known:
         if kf.get("status") == "known" and kf.get("witness"):
-            import os
-            from ..core import VERIF
-            text = open(os.path.join(VERIF, kf["witness"])).read()
-            if "--- script" not in text:
+            r = ctx.witness_still_fails(kf)
+            if r is None:
                 continue
-            script = text.split("--- script", 1)[1].lstrip("\n")
-            lines, rc, err = ctx.script(script)
-            lines = [l for l in lines if l.startswith(ctx.TRANSCRIPT_PREFIXES)]
-            obs = [l[len("observed-last "):].strip() for l in text.split("\n") if l.startswith("observed-last ")]
-            if lines and any(o == lines[-1].strip() for o in obs):
+            still[kf["id"]] = r
+            if r:
                 ctx.known_finding(kf)
     # ---- A: L1 correspondence (byte exact incl. header bytes) ----
     fa, sa = HC.l1_campaign(ctx, l1_scripts, modes=("w", "r"), gen=l1_gen)
@@ -86,8 +99,8 @@ def run_common(ctx, prop, modules, stride, l1_scripts, l1_gen=None):
                 continue
             kf = known_class(j, cat, text)
             ent = next((k for k in ctx.known if k["id"] == kf and k.get("status") == "known" and prop in k.get("properties", [])), None) if kf else None
-            if ent:
-                ctx.known_finding(ent)
+            if ent and still.get(kf, True):
+                ctx.known_finding(ent)      # inside a listed class, and the class's witness still fails on this tree
                 continue
             key = (j.fmt.name, cat)
             if key in reported or sum(1 for k in reported if k[1] == cat) >= 3:
